@@ -21,9 +21,10 @@ from gemato.openpgp import IsolatedGPGEnvironment
 
 PROPERTY = 'C04'
 LEVEL = 'exploration'
-RULE = ('(sequences) every sequence of length 0..5 (quick) / 0..7 '
+RULE = ('(sequences) every sequence of length 0..6 (quick) / 0..7 '
         '(thorough) over the line classes S signed-message header, G '
-        'signature header, N signature end, O other armor line, B blank, H '
+        'signature header, N signature end, O other armor line, B empty line, '
+        'W whitespace-only line, H '
         'armor-header/base64 text, E valid entry, D dash-escaped entry, A '
         'dash-escaped armor line, J junk; with and without final newline; '
         'verification on (recording stub backend) and off; entries carry '
@@ -54,7 +55,7 @@ ASSUMPTIONS = [
 S = '-----BEGIN PGP SIGNED MESSAGE-----'
 G = '-----BEGIN PGP SIGNATURE-----'
 N = '-----END PGP SIGNATURE-----'
-CLASSES = 'SGNOBHEDAJX'
+CLASSES = 'SGNOBWHEDAJX'
 
 
 def line_for(cls, i):
@@ -67,7 +68,9 @@ def line_for(cls, i):
     if cls == 'O':
         return '-----BEGIN PGP MESSAGE-----'
     if cls == 'B':
-        return '' if i % 2 == 0 else '  '
+        return ''
+    if cls == 'W':
+        return '  ' if i % 2 == 0 else '\t'
     if cls == 'H':
         return 'Hash: SHA256' if i % 2 == 0 else 'iQEzBAEBCAAdFiEEabcdef=='
     if cls == 'E':
@@ -107,6 +110,7 @@ class Stub:
 
 def expected_for(seq):
     """Returns (verdict, allowed exception names, entries index list, span)"""
+    seq = seq.replace('W', 'B')     # whitespace-only lines are blank lines
     m = SIGNED_RE.match(seq)
     if PLAIN_RE.match(seq):
         return 'accept', None, [i for i, c in enumerate(seq) if c == 'E'], None
@@ -127,7 +131,7 @@ def expected_for(seq):
 
 
 def enum_sequences(tier, shard, nshards):
-    maxlen = 5 if tier == 'quick' else 7
+    maxlen = 6 if tier == 'quick' else 7
     i = 0
     for n in range(0, maxlen + 1):
         for seq in itertools.product(CLASSES, repeat=n):
@@ -180,7 +184,8 @@ def run_sequence(desc):
                             sig='double-dash-unescaped')
                 signed_shape = 'S' in seq
                 if signed_shape:
-                    fm = re.match(r'^B*S[^B]*B(?P<body>[^G]*)G', seq)
+                    fm = re.match(r'^B*S[^B]*B(?P<body>[^G]*)G',
+                                  seq.replace('W', 'B'))
                     body = range(fm.start('body'), fm.end('body')) if fm \
                         else range(0)
                     outside = [i for i in got if i not in body]
